@@ -171,7 +171,7 @@ Emit == PrintT(ToJson([pre |-> StateRec, act |-> act', post |-> StateRecP, n |->
 (* JSON line per violating state (the exploration goes on): the verdicts    *)
 (* come from role C on the real code.                                       *)
 (* every announced service was handled under the configuration now loaded *)
-Settled == mem.annB \subseteq since /\ errS = {}
+Settled == (mem.annB \subseteq since \/ (svcQ = {} /\ nodeQ = {} /\ ~cfgQ /\ ~reload /\ gate)) /\ errS = {}
 LoadedNow == Loaded(mem.cfg)
 ExpectedRoutes(p) == Routes(LoadedNow, mem.annB, mem.ips, p)
 SessionsExact ==
